@@ -73,6 +73,31 @@ Theorem C02_series_time_len : forall a s ax,
 Proof. exact series_time_len. Qed.
 Print Assumptions C02_series_time_len.
 
+(* 3b. Specifications that describe the same sampling in another unit yield the same axis:
+       a time-object interval/start displayed under any time_unit; whole numbers of two units
+       that denote the same picoseconds (2 ms = 2000 us). *)
+Theorem C02_unit_independent : forall ps su l t0ps tu u1 u2,
+  match ut_new (mk_ut_args None (Some l) None None (Some (VTime ps su)) (Some (VTime t0ps tu)) (UArg u1)),
+        ut_new (mk_ut_args None (Some l) None None (Some (VTime ps su)) (Some (VTime t0ps tu)) (UArg u2)) with
+  | TOk a, TOk b => same_axis a b /\ ax_unit a = u1 /\ ax_unit b = u2
+  | TErr e, TErr e' => e = e'
+  | TScope, TScope => True
+  | _, _ => False
+  end.
+Proof. exact ut_unit_independent. Qed.
+Theorem C02_same_sampling_any_unit : forall k1 u1 k2 u2 z1 z2 l,
+  k1 * factor u1 = k2 * factor u2 -> z1 * factor u1 = z2 * factor u2 ->
+  forall a b,
+  ut_new (mk_ut_args None (Some l) None None (Some (VInt k1)) (Some (VInt z1)) (UArg u1)) = TOk a ->
+  ut_new (mk_ut_args None (Some l) None None (Some (VInt k2)) (Some (VInt z2)) (UArg u2)) = TOk b ->
+  0 < k1 -> 0 < k2 -> 0 <= l ->
+  ax_n a = ax_n b /\ ax_t0 a = ax_t0 b /\ ax_dt a = ax_dt b /\ ax_dur a = ax_dur b.
+Proof. exact ut_same_sampling_any_unit. Qed.
+Print Assumptions C02_unit_independent.
+Print Assumptions C02_same_sampling_any_unit.
+(*     NOT proved (float reasoning): that an interval and its reciprocal rate yield identical axes;
+       this is carried by the oracle and the correspondence only, and is refuted above 2^50 ps. *)
+
 (* 4. Incomplete / over-determined argument combinations are rejected (ValueError); the table
       itself is tied to the code by the generated-fact lemma of the check (G). *)
 Theorem C02_invalid_rejected : forall a,
@@ -153,6 +178,28 @@ Proof.
   split; [exact H0|]. split; [reflexivity|]. intros E. rewrite E, Z.eqb_refl in H1. discriminate.
 Qed.
 Print Assumptions C02_rate_roundtrip_refuted.
+
+(* a series given a duration next to an interval or rate: the duration attribute is the given one,
+   not the extent of series.time (4 samples at 5 Hz, duration=10: 10 s reported, 0.8 s covered) *)
+Definition w_series_dur := mk_ts_args 4 None None (Some (VInt 5)) (Some (VInt 10)) None (UArg Us).
+Lemma w_series_dur_eval :
+  match ts_new w_series_dur with
+  | TOk s => match ts_time s with
+             | TOk ax => (se_dur s =? 10000000000000) && (ax_n ax * ax_dt ax =? 800000000000) && (ax_n ax =? 4)
+             | _ => false end
+  | _ => false end = true.
+Proof. vm_compute. reflexivity. Qed.
+Theorem C02_series_duration_refuted : exists a s ax,
+  ts_new a = TOk s /\ ts_time s = TOk ax /\ ax_n ax = s_len a /\ se_dur s <> ax_n ax * ax_dt ax.
+Proof.
+  pose proof w_series_dur_eval as H. exists w_series_dur.
+  destruct (ts_new w_series_dur) as [s| |]; try discriminate. exists s.
+  destruct (ts_time s) as [ax| |]; try discriminate. exists ax.
+  apply andb_prop in H as [H H3]. apply andb_prop in H as [H1 H2].
+  apply Z.eqb_eq in H1, H2, H3. split; [reflexivity|]. split; [reflexivity|].
+  split; [exact H3|]. rewrite H1, H2. discriminate.
+Qed.
+Print Assumptions C02_series_duration_refuted.
 
 (* 7. Non-vacuity and the formerly failing inputs (now fixed in /repo). *)
 (* 2.2 min x 100: 100 samples, duration = 100 * 132000000000000 ps *)
